@@ -170,6 +170,10 @@ func Main(t *testing.T, c *Check) {
 					}
 					samples = append(samples, map[string]any{"scenario": sc.Name, "default_schedule": lab, "obs": trunc(res.Obs, 300)})
 				}
+				if os.Getenv("VERIF_VERBOSE") != "" && (res.Capped || res.Diverged || res.Crash != "") {
+					b, _ := json.Marshal(job)
+					fmt.Printf("    capped=%v diverged=%v crash=%q obs=%s job=%s\n", res.Capped, res.Diverged, res.Crash, trunc(res.Obs, 120), b)
+				}
 				for k, v := range res.Counters {
 					r.Add("counter_"+k, int64(v))
 				}
